@@ -228,6 +228,45 @@ pub fn run(item: &Value) -> Value {
             let variant = item["variant"].as_str();
             crate::api_gen::field(ty, content, variant).unwrap_or(json!({"error": "unknown field type"}))
         }
+        "header_roundtrip" => {
+            let text = item["text"].as_str().unwrap_or("");
+            match ty {
+                "BasicHeader" => match swift_mt_message::headers::BasicHeader::parse(text) {
+                    Ok(h) => {
+                        let t = h.to_string();
+                        let (eq, t2) = match swift_mt_message::headers::BasicHeader::parse(&t) {
+                            Ok(h2) => (h2 == h, h2.to_string()),
+                            Err(_) => (false, String::new()),
+                        };
+                        json!({"ok": true, "text": t, "reparse_equal": eq, "text2": t2})
+                    }
+                    Err(e) => json!({"ok": false, "display": e.to_string()}),
+                },
+                "ApplicationHeader" => match swift_mt_message::headers::ApplicationHeader::parse(text) {
+                    Ok(h) => {
+                        let t = h.to_string();
+                        let (eq, t2) = match swift_mt_message::headers::ApplicationHeader::parse(&t) {
+                            Ok(h2) => (h2 == h, h2.to_string()),
+                            Err(_) => (false, String::new()),
+                        };
+                        json!({"ok": true, "text": t, "reparse_equal": eq, "text2": t2})
+                    }
+                    Err(e) => json!({"ok": false, "display": e.to_string()}),
+                },
+                "UserHeader" => match swift_mt_message::headers::UserHeader::parse(text) {
+                    Ok(h) => {
+                        let t = h.to_string();
+                        let (eq, t2) = match swift_mt_message::headers::UserHeader::parse(&t) {
+                            Ok(h2) => (h2 == h, h2.to_string()),
+                            Err(_) => (false, String::new()),
+                        };
+                        json!({"ok": true, "text": t, "reparse_equal": eq, "text2": t2})
+                    }
+                    Err(e) => json!({"ok": false, "display": e.to_string()}),
+                },
+                _ => json!({"error": "unknown header type"}),
+            }
+        }
         "header_json" => {
             let j = &item["json"];
             match ty {
